@@ -740,6 +740,56 @@ pub fn variants(ops_path: &str, scratch: &str) -> (u64, Vec<String>) {
                 violations.push(format!("history {} on backend `{}`: the file differs from the in-memory run at byte {} (lengths {} / {})", i, name, k, img.len(), img1.len()));
             }
         }
+        // the crate's path constructors for existing files: `cfb::open`, `cfb::open_rw`, `OpenOptions::open`,
+        // `OpenOptions::open_rw` on the finished image must show what the in-memory image shows, and a
+        // mutation through `open_rw` must change the file exactly as it changes the in-memory bytes
+        if !img0.is_empty() {
+            std::fs::write(&file_path, &img0).unwrap();
+            let reference = std::io::Cursor::new(img0.clone());
+            let want = cfb::CompoundFile::open(reference).map(|c| crate::api::dump_of(c)).unwrap_or_else(|e| format!("err {}", err_kind(&e)));
+            let got: Vec<(&str, String)> = vec![
+                ("cfb::open(path)", cfb::open(&file_path).map(|c| crate::api::dump_of(c)).unwrap_or_else(|e| format!("err {}", err_kind(&e)))),
+                ("cfb::open_rw(path)", cfb::open_rw(&file_path).map(|c| crate::api::dump_of(c)).unwrap_or_else(|e| format!("err {}", err_kind(&e)))),
+                ("OpenOptions::open(path)", cfb::OpenOptions::new().max_buffer_size(1024).open(&file_path).map(|c| crate::api::dump_of(c)).unwrap_or_else(|e| format!("err {}", err_kind(&e)))),
+                ("OpenOptions::open_rw(path)", cfb::OpenOptions::new().max_buffer_size(1024).open_rw(&file_path).map(|c| crate::api::dump_of(c)).unwrap_or_else(|e| format!("err {}", err_kind(&e)))),
+            ];
+            for (name, g) in got {
+                evaluations += 1;
+                if g != want {
+                    violations.push(format!("history {} on backend `{}`: the finished image read through the path constructor differs from the in-memory read ({} / {})", i, name, short(&g), short(&want)));
+                }
+            }
+            // reading must not have changed the file
+            if std::fs::read(&file_path).unwrap_or_default() != img0 {
+                violations.push(format!("history {} on backend `path constructors`: opening and reading changed the file", i));
+            }
+            // the same mutation through open_rw(path) and through a Cursor
+            use std::io::Write as _;
+            let mutate = |c: &mut dyn FnMut(&str, &[u8]) -> std::io::Result<()>| -> String {
+                let mut out = Vec::new();
+                for (nm, n) in [("/zz_rw_small", 100usize), ("/zz_rw_large", 5000usize)] {
+                    out.push(match c(nm, &pattern(n, 77)) { Ok(()) => "ok".to_string(), Err(e) => format!("err {}", err_kind(&e)) });
+                }
+                out.join(",")
+            };
+            let mut mem = cfb::CompoundFile::open(std::io::Cursor::new(img0.clone())).ok();
+            let mut disk = cfb::open_rw(&file_path).ok();
+            if let (Some(mc), Some(dc)) = (mem.as_mut(), disk.as_mut()) {
+                let rm = mutate(&mut |nm, data| { let mut st = mc.create_stream(nm)?; st.write_all(data)?; st.flush() });
+                let rd = mutate(&mut |nm, data| { let mut st = dc.create_stream(nm)?; st.write_all(data)?; st.flush() });
+                let _ = dc.flush();
+                evaluations += 1;
+                let mem_bytes = mem.take().unwrap().into_inner().into_inner();
+                drop(disk.take());
+                let disk_bytes = std::fs::read(&file_path).unwrap_or_default();
+                if rm != rd {
+                    violations.push(format!("history {} on backend `cfb::open_rw(path)`: creating two streams gives {} but {} in memory", i, rd, rm));
+                } else if mem_bytes != disk_bytes {
+                    let k = mem_bytes.iter().zip(disk_bytes.iter()).position(|(a, b)| a != b).unwrap_or(mem_bytes.len().min(disk_bytes.len()));
+                    violations.push(format!("history {} on backend `cfb::open_rw(path)`: after creating two streams the file differs from the in-memory run at byte {} (lengths {} / {})", i, k, disk_bytes.len(), mem_bytes.len()));
+                }
+            }
+        }
         let _ = std::fs::remove_file(&file_path);
         // while a handle holds unflushed data, listed lengths depend on when the buffer was written
         // back, i.e. on its size: those results are not compared across buffer sizes
